@@ -8,6 +8,9 @@ import Pdb.Model.Meta
 import Pdb.Model.Wal
 import Pdb.Model.Validate
 import Pdb.Model.ValueTable
+import Pdb.Model.Dur
+import Pdb.Model.MultiTree
+import Pdb.Model.Migrate
 
 open Pdb
 
@@ -101,6 +104,7 @@ def p1Step (p : P1) (ws : List String) : P1 × String :=
 structure State where
   p1 : Option P1 := none
   c06 : Pdb.ValueTable.State := {}
+  c10 : Pdb.MultiTree.DState := none
 
 def stepLine (s : State) (line : String) : State × String :=
   let ws := (line.trimAscii.toString.splitOn " ").filter (· ≠ "")
@@ -117,6 +121,11 @@ def stepLine (s : State) (line : String) : State × String :=
   | "c17" :: rest => (s, Pdb.C17.driverLine rest)
   | "c13" :: rest => (s, Pdb.Wal.driverLine rest)
   | "c08" :: rest => (s, Pdb.Validate.driverLine rest)
+  | "c12" :: rest => (s, Pdb.Dur.driverLine rest)
+  | "c20" :: rest => (s, Pdb.Migrate.driverLine rest)
+  | "c10" :: rest =>
+    let (c, o) := Pdb.MultiTree.step s.c10 rest
+    ({ s with c10 := c }, o)
   | "c06" :: "t" :: rest =>
     let (st', out) := Pdb.ValueTable.step s.c06 rest
     ({ s with c06 := st' }, out)
